@@ -36,6 +36,9 @@ pub enum C04Case {
         files: Vec<ModelFile>,
         archive: Vec<CpioSpec>,
         long_sizes: bool,
+        /// header-side file sizes overridden: (file index, size) written to FILESIZES / LONGFILESIZES
+        #[serde(default)]
+        size_overrides: Vec<(u8, u64)>,
     },
 }
 
@@ -129,9 +132,25 @@ impl C04Case {
                 };
                 b
             }
-            C04Case::Cpio { files, archive, long_sizes } => {
+            C04Case::Cpio { files, archive, long_sizes, size_overrides } => {
                 let mut main = filepkg::basic_entries("cpio");
-                main.extend(filepkg::file_entries(files, *long_sizes));
+                let mut fe = filepkg::file_entries(files, *long_sizes);
+                for (tag, v) in fe.iter_mut() {
+                    for (i, size) in size_overrides {
+                        match v {
+                            Val::Int64(a) if *tag == tags::LONGFILESIZES && !a.is_empty() => {
+                                let n = a.len();
+                                a[*i as usize % n] = *size
+                            }
+                            Val::Int32(a) if *tag == tags::FILESIZES && !a.is_empty() => {
+                                let n = a.len();
+                                a[*i as usize % n] = *size as u32
+                            }
+                            _ => {}
+                        }
+                    }
+                }
+                main.extend(fe);
                 let payload = crate::refimpl::cpio::write_archive(archive);
                 filepkg::wrap(main, payload, true).encode()
             }
@@ -434,8 +453,9 @@ fn hostile_name() -> BoxedStrategy<Option<Vec<u8>>> {
 }
 
 pub fn hostile_cpio() -> BoxedStrategy<C04Case> {
-    (filepkg::model_files(4, 24), any::<bool>(), proptest::collection::vec(((hostile_field(), hostile_field(), hostile_field(), hostile_name()), 0u8..12, any::<[bool; 3]>()), 0..6), prop::bool::weighted(0.8))
-        .prop_map(|(files, long_sizes, perts, trailer)| {
+    let big = prop_oneof![Just(1u64 << 32), Just((1u64 << 32) + 4), Just((1u64 << 32) - 1), Just(1u64 << 31), Just(u64::MAX), Just(u64::MAX - 3), Just(5_000_000_000u64), Just(3u64 << 32), Just(0u64), 0u64..64];
+    (filepkg::model_files(4, 24), any::<bool>(), proptest::collection::vec(((hostile_field(), hostile_field(), hostile_field(), hostile_name()), 0u8..12, any::<[bool; 3]>()), 0..6), prop::bool::weighted(0.8), prop_oneof![3 => Just(vec![]), 1 => proptest::collection::vec((0u8..4, big), 1..3)])
+        .prop_map(|(files, long_sizes, perts, trailer, size_overrides)| {
             let mut archive: Vec<CpioSpec> = if long_sizes {
                 files.iter().enumerate().filter(|(_, f)| !f.is_ghost()).map(|(i, f)| CpioSpec::stripped(i as u32, f.content.clone())).collect()
             } else {
@@ -481,7 +501,7 @@ pub fn hostile_cpio() -> BoxedStrategy<C04Case> {
             if trailer {
                 archive.push(CpioSpec::trailer());
             }
-            C04Case::Cpio { files, archive, long_sizes }
+            C04Case::Cpio { files, archive, long_sizes, size_overrides }
         })
         .boxed()
 }
